@@ -6,9 +6,10 @@
    fields / map keys with equal values" (modelled, not verified; the correspondence runs the real
    one on every case).  The tolerance theorems are about the model of Go's arithmetic in
    Cmp/Tolerance.v (int64 wrap-around, AsTime / AsDuration, exact rationals for finite floats). *)
-From Coq Require Import QArith.
-From SC Require Import Base.Prelude Cmp.Cmp Cmp.Logic Cmp.Tolerance Cmp.GoTime Cmp.Spec Cmp.LogicProofs Cmp.ToleranceProofs
-  Cmp.GoTimeProofs Cmp.CmpProofs Cmp.CollEquiv Cmp.CollEquivProofs Cmp.C16Judge Cmp.TreeProofs Cmp.JudgeProofs
+From Coq Require Import QArith Reals.
+From Flocq Require Import Core.Core IEEE754.BinarySingleNaN.
+From SC Require Import Base.Prelude Cmp.Cmp Cmp.Logic Cmp.Tolerance Cmp.FloatB64 Cmp.GoTime Cmp.Spec Cmp.LogicProofs Cmp.ToleranceProofs Cmp.FloatB64Proofs
+  Cmp.GoTimeProofs Cmp.CmpProofs Cmp.CmpTableProofs Cmp.SpecSymProofs Cmp.CollEquiv Cmp.CollEquivProofs Cmp.C16Judge Cmp.TreeProofs Cmp.JudgeProofs Cmp.CollJudgeProofs Cmp.MaskJudgeProofs
   Resource.Impl Resource.Pull Resource.PullProofs.
 Open Scope Z_scope.
 
@@ -37,6 +38,13 @@ Theorem C16_change_time_presence_v0_refuted :
   proto_equal (option_map strip (Some (change_msg true))) (option_map strip (Some (change_msg false))) = true /\
   cmp_equal [] (Some (change_msg true)) (Some (change_msg false)) = true.
 Proof. exact change_time_presence_v0_refuted. Qed.
+
+(* the decision structure of pkg/cmp, read from the SOURCE on every run (Gen/CmpTable.v), is the one the
+   model and the tree conversion assume: every protoreflect kind compared through the accessor of its
+   constructor, none falling to the default, hook before the switch, order of equalField, the literals
+   of the exception and of the tolerance comparers' kind / full-name tests *)
+Theorem C16_source_table_matches_model : cmp_table_ok = true.
+Proof. exact cmp_table_matches_model. Qed.
 
 (* ---- And / Or ---- *)
 Theorem C16_and_is_conj : forall (eqs : list mcmp) x y,
@@ -83,6 +91,56 @@ Theorem C16_float_special_values_v0_refuted :
   fl_approx_gen true 0 (1#2) (FInf false) (FInf false) = false /\
   fl_approx_gen true (1#2) 0 (FInf false) (FInf true) = true.
 Proof. exact float_v0_refuted. Qed.
+
+(* ---- FloatValueApprox on ACTUAL float64 arithmetic (Flocq binary64, round to nearest even; Cmp/FloatB64.v).
+   These theorems (and the ones below that go through the model of a configuration, model_v) rest on
+   the four standard-library axioms of the real numbers that Flocq inherits. ---- *)
+(* every float64: NaN, +-Inf, +-0, subnormals; every fraction and margin, NaN and negative included *)
+Theorem C16_float_b64_reflexive : forall fr mg x : binary64, b64_approx fr mg x x = true.
+Proof. exact b64_approx_refl. Qed.
+
+(* symmetric on every pair, rounding and overflow of x-y included *)
+Theorem C16_float_b64_symmetric : forall fr mg x y : binary64, b64_approx fr mg x y = b64_approx fr mg y x.
+Proof. exact b64_approx_sym. Qed.
+
+(* accepts exactly the pairs within the stated tolerance, over the reals, whenever neither x-y nor
+   fraction*min(|x|,|y|) rounds or overflows *)
+Theorem C16_float_b64_accepts_iff_within_real : forall fr mg x y : binary64,
+  is_finite fr = true -> is_finite mg = true -> is_finite x = true -> is_finite y = true ->
+  b64_exact (B2R x - B2R y)%R ->
+  b64_exact (B2R fr * Rmin (Rabs (B2R x)) (Rabs (B2R y)))%R ->
+  b64_approx fr mg x y =
+  Req_bool (B2R x) (B2R y)
+  || Rle_bool (Rabs (B2R x - B2R y)) (Rmax (B2R mg) (B2R fr * Rmin (Rabs (B2R x)) (Rabs (B2R y)))).
+Proof. exact b64_approx_real. Qed.
+
+(* on the judge's guard (small dyadic values, fraction, margin) no operation rounds: the binary64
+   comparer is the exact-rational one, hence the ideal tolerance *)
+Theorem C16_float_b64_is_rational_on_guard : forall fr mg a b,
+  small_dyadic fr = true -> small_dyadic mg = true -> fl_small a = true -> fl_small b = true ->
+  fl_approx_b64 fr mg a b = fl_approx_gen false fr mg a b.
+Proof. exact b64_approx_exact. Qed.
+
+Theorem C16_float_b64_accepts_iff_within : forall fr mg a b,
+  small_dyadic fr = true -> small_dyadic mg = true -> fl_small a = true -> fl_small b = true ->
+  Qle_bool 0 mg = true -> fl_approx_b64 fr mg a b = ideal_float fr mg a b.
+Proof. exact b64_accepts_iff_within. Qed.
+
+(* the conversion of the harness's exact rationals to binary64 loses nothing but the sign of zero,
+   which the comparer never sees *)
+Theorem C16_float_b64_conversion_exact : forall fr mg x y : binary64,
+  b64_approx fr mg (b64_of_fl (fl_of_b64 x)) (b64_of_fl (fl_of_b64 y)) = b64_approx fr mg x y.
+Proof. exact b64_approx_via_fl. Qed.
+
+(* outside the guard the exact-rational model is NOT the code: 2^53 against -1 under margin 2^53 (x-y
+   rounds to even), one subnormal against three under fraction 3/2 (the product rounds up) *)
+Theorem C16_float_rational_model_outside_guard_refuted :
+  (fl_approx_b64 0 9007199254740992 (FFin 9007199254740992) (FFin (-1)) = true
+   /\ fl_approx_gen false 0 9007199254740992 (FFin 9007199254740992) (FFin (-1)) = false)
+  /\ (let u := Q_of_finite false 1 (-1074) in
+      fl_approx_b64 (3 # 2) 0 (FFin u) (FFin (3 * u)) = true
+      /\ fl_approx_gen false (3 # 2) 0 (FFin u) (FFin (3 * u)) = false).
+Proof. exact b64_differs_from_rational_when_rounding. Qed.
 
 (* ---- TimeValueWithin (time.Unix, Before, Sub, Add, Equal as Go computes them: Cmp/GoTime.v) ---- *)
 Theorem C16_time_reflexive : forall d x, 0 <= d <= max_dur ->
@@ -181,8 +239,50 @@ Theorem C16_durp_only_own_kind : forall p x y,
   exists tx vx fx ux ty vy fy uy, x = CM tx vx fx ux /\ y = CM ty vy fy uy /\ (tx = dur_full \/ ty = dur_full).
 Proof. exact durp_only_own_kind. Qed.
 
-(* ---- the judged clauses hold of the model ---- *)
-Theorem C16_judge_sound_partial : forall is_or es x y,
+(* ---- symmetry and reflexivity at the level of WHOLE messages ---- *)
+(* the reference equality is symmetric / reflexive on well-formed trees whenever its leaf relation is
+   (leaves answer on scalars and messages only) *)
+Theorem C16_reference_symmetric : forall ign (L : cval -> cval -> option bool),
+  (forall a b, L a b = L b a) -> (forall a b, is_singular a && is_singular b = false -> L a b = None) ->
+  forall x y, opt_wf x = true -> opt_wf y = true -> spec_top ign L x y = spec_top ign L y x.
+Proof. intros. apply spec_top_sym; assumption. Qed.
+
+Theorem C16_reference_reflexive : forall ign (L : cval -> cval -> option bool),
+  (forall a, L a a = Some true \/ L a a = None) ->
+  forall x, opt_wf x = true -> spec_top ign L x x = true.
+Proof. intros. apply spec_top_refl; assumption. Qed.
+
+(* cmp.Equal(FloatValueApprox.., TimeValueWithin.., DurationValueWithin..) and cmp.Equal(cmp.ValueOr(..))
+   are symmetric on ALL pairs of possibly-nil messages (no guard on the values: NaN, infinities,
+   saturating Durations, typed nil, different types, unknown fields), and reflexive on every message
+   for non-negative tolerances *)
+Theorem C16_equal_symmetric : forall e x y, has_durp e = false -> opt_wf x = true -> opt_wf y = true ->
+  model_e e x y = model_e e y x.
+Proof. exact model_symmetric. Qed.
+
+Theorem C16_equal_reflexive : forall e x, ecfg_guard e = true -> has_durp e = false -> opt_wf x = true ->
+  model_e e x x = true.
+Proof. exact model_reflexive. Qed.
+
+(* ---- the judge is sound with respect to the model ---- *)
+(* whenever the observation is the model's ([agrees]), the guard holds and no known-finding class
+   applies ([in_scope_all]: no DurationValueWithinP, no saturating Duration under DurationValueWithin;
+   pair, Value-stream, one-item-collection and whole-collection cases with distinct ids; not the
+   read-mask cases), the property predicate evaluated on the OBSERVATION holds: symmetric, reflexive,
+   equal to the reference equality with ideal leaves, equal to the real proto.Equal modulo
+   change_time, And/Or = fold, delivered iff not ideally equivalent to what the subscriber holds.
+   So on in-scope cases a non-zero verdict can only come from the code differing from the model. *)
+Theorem C16_judge_sound : forall c,
+  agrees c = true -> C16_guard c = true -> in_scope_all c = true -> C16_ok c = true.
+Proof. exact judge_sound_all. Qed.
+
+(* read-mask streams (Value.Pull WithReadPaths): the same, on the FILTERED values *)
+Theorem C16_judge_sound_masked_stream : forall paths e seed writes emitted,
+  let c := KStreamM paths e seed writes emitted in
+  agrees_core c = true -> mask_stream_scope paths e seed writes = true -> ok_core c = true.
+Proof. exact mask_stream_sound. Qed.
+
+Theorem C16_judge_sound_comb : forall is_or es x y,
   ok_obs x y (false, false)
          (OComb is_or es (map (fun e => four (model_e e) x y) es)
                 (four ((if is_or then msg_or else msg_and) (map model_e es)) x y)) = true.
@@ -326,10 +426,27 @@ Example C16_nonvacuous_stream :
   [nv_msg 0 0; nv_msg 1 0].
 Proof. vm_compute. reflexivity. Qed.
 
+(* the hypotheses of C16_judge_sound hold of a non-trivial pair case and of a drifting stream *)
+Example C16_nonvacuous_judge_sound :
+  let c1 := KG true (KPair (Some (nv_msg (1#2) 5)) (Some (nv_msg (3#4) 7)) (false, false) (false, false)
+              [OEq (EAnd [VFloat 0 (1#4); VTime 2; VDur 0]) (true, true, true, true);
+               OEq (EOr [VFloat 0 0; VFloat 0 (1#8)]) (false, false, true, true)]) in
+  let c2 := KStream (EAnd [VFloat 0 (1#2)]) (Some (nv_msg 0 0)) [nv_msg (1#2) 0; nv_msg 1 0; nv_msg (3#2) 0]
+              [nv_msg 0 0; nv_msg 1 0] in
+  let c3 := KColl (EAnd [VFloat 0 (1#2)]) false (Some (1#1)) [("a"%string, nv_msg 1 0); ("b"%string, nv_msg (1#2) 0)]
+              [("a"%string, Some (nv_msg (5#4) 0)); ("a"%string, Some (nv_msg (3#2) 0)); ("a"%string, Some (nv_msg (7#4) 0));
+               ("b"%string, Some (nv_msg (3#2) 0)); ("a"%string, None)]
+              [("a"%string, None, Some (nv_msg 1 0)); ("a"%string, Some (nv_msg (3#2) 0), Some (nv_msg (7#4) 0));
+               ("b"%string, None, Some (nv_msg (3#2) 0)); ("a"%string, Some (nv_msg (7#4) 0), None)] in
+  (agrees c1 && C16_guard c1 && in_scope_all c1 && C16_ok c1) && (agrees c2 && C16_guard c2 && in_scope_all c2 && C16_ok c2)
+  && (agrees c3 && C16_guard c3 && in_scope_all c3 && C16_ok c3) = true.
+Proof. vm_compute. reflexivity. Qed.
+
 Print Assumptions C16_default_is_proto_equal.
 Print Assumptions C16_equal_with_comparers_is_reference.
 Print Assumptions C16_ignoring_is_clearing.
 Print Assumptions C16_change_time_presence_v0_refuted.
+Print Assumptions C16_source_table_matches_model.
 Print Assumptions C16_and_is_conj.
 Print Assumptions C16_or_is_disj.
 Print Assumptions C16_value_and_is_conj.
@@ -339,6 +456,13 @@ Print Assumptions C16_float_symmetric.
 Print Assumptions C16_float_accepts_iff_within.
 Print Assumptions C16_float_only_own_kind.
 Print Assumptions C16_float_special_values_v0_refuted.
+Print Assumptions C16_float_b64_reflexive.
+Print Assumptions C16_float_b64_symmetric.
+Print Assumptions C16_float_b64_accepts_iff_within_real.
+Print Assumptions C16_float_b64_is_rational_on_guard.
+Print Assumptions C16_float_b64_accepts_iff_within.
+Print Assumptions C16_float_b64_conversion_exact.
+Print Assumptions C16_float_rational_model_outside_guard_refuted.
 Print Assumptions C16_time_reflexive.
 Print Assumptions C16_time_symmetric.
 Print Assumptions C16_time_accepts_iff_within.
@@ -352,7 +476,13 @@ Print Assumptions C16_duration_wrap_v0_refuted.
 Print Assumptions C16_durp_symmetric_refuted.
 Print Assumptions C16_durp_reflexive_refuted.
 Print Assumptions C16_durp_only_own_kind.
-Print Assumptions C16_judge_sound_partial.
+Print Assumptions C16_judge_sound.
+Print Assumptions C16_judge_sound_masked_stream.
+Print Assumptions C16_judge_sound_comb.
+Print Assumptions C16_reference_symmetric.
+Print Assumptions C16_reference_reflexive.
+Print Assumptions C16_equal_symmetric.
+Print Assumptions C16_equal_reflexive.
 Print Assumptions C16_judge_sound_default.
 Print Assumptions C16_resource_value_stream_exact.
 Print Assumptions C16_resource_equivalence_suppresses_exactly_equivalent.
